@@ -91,7 +91,7 @@ class Value(SubCheck):
     def run(self, case):
         out = Outcome()
         svg = self.svg
-        L = svg.Length(case["amount"] + case["unit"])
+        L = out.keep(svg.Length(case["amount"] + case["unit"]))
         if not close(L.amount, F(case["amount"])) or L.units != case["unit"]:
             out.fail("Length(%r) parsed as %r %r" % (case["amount"] + case["unit"], L.amount, L.units), kind="parse")
             return out
@@ -213,8 +213,8 @@ class Binary(SubCheck):
             return out          # str on the left: only + and - reach Length (__radd__/__rsub__)
         if op == "/" and F(b) == 0:
             return out
-        A = svg.Length(a + ua)
-        B = svg.Length(b + ub)
+        A = out.keep(svg.Length(a + ua))
+        B = out.keep(svg.Length(b + ub))
         left = A if form[0] == "L" else a + ua
         right = B if form[1] == "L" else (b + ub if form[1] == "s" else float(b))
         defined = ls.same_family(ua, ub)
